@@ -38,11 +38,12 @@ REQUIRED = {
     "C10": {"assign-enabled": 500, "reset-checked-at-arrival": 2000, "assign-disabled-dontcare": 50, "sentinel-assign": 50,
             "fault-in-reset-iteration": 20, "snapshot-checked": 20000,
             "marker-redeclared-in-subclass": 30, "marker-shadowed-by-plain-attribute": 30, "two-components-one-class": 50,
-            "private-named-marker": 30, "identity-only-default": 30},
+            "private-named-marker": 30, "identity-only-default": 30, "component-class-derived-from-another-component-class": 30,
+            "fault-after-fms-attached-mid-run": 10},
     "C11": {"feedback-value-checked": 5000, "feedback-type-checked": 5000, "raised-getter-unchanged": 20,
             "hint:int": 50, "hint:float": 50, "hint:bool": 50, "hint:str": 50, "hint:int[]": 20, "hint:rot": 20, "hint:none": 50,
             "explicit-key": 50, "get_-prefix-stripped": 50, "mode:disabled": 200, "mode:test": 100,
-            "same-list-object-mutated": 100, "string-return-hint": 100},
+            "same-list-object-mutated": 100, "string-return-hint": 100, "fault-after-fms-attached-mid-run": 10},
 }
 ASSUMPTIONS = {p: ["the robot thread is parked at the gate in NotifierDelay.wait() while the harness changes driver-station words and reads NetworkTables (simenv.py)",
                    "on_disable order among components, setup order, feedback order inside an iteration are not specified and are compared as sets"]
@@ -105,11 +106,20 @@ def gen_case(rng, pid, uid):
         # two components that are instances of ONE class (`left: Shooter; right: Shooter`)
         import copy
         a, b = rng.sample(cnames, 2)
-        comps[a].pop("is_sm", None)
         comps[b] = copy.deepcopy(comps[a])
         comps[b]["same_class_as"] = a
         for cn in (a, b):
             comps[cn]["inject"] = [x for x in comps[a]["inject"] if x not in (a, b)]
+        if rng.random() < 0.5:
+            # ... or b's class derives from a's class and adds markers / feedback getters of its own
+            ex_r = [{"attr": f"x{j}", "default": rng.choice(defaults)} for j in range(rng.choice([1, 2]))]
+            ex_f = [_gen_fb(rng, fbnames, 20 + j, uid) for j in range(rng.choice([0, 1, 2]))]
+            for f_ in ex_f:
+                f_["same_object"] = False
+            comps[b]["extra_resets"] = ex_r
+            comps[b]["extra_feedbacks"] = ex_f
+            comps[b]["resets"] = comps[b]["resets"] + ex_r
+            comps[b]["feedbacks"] = comps[b]["feedbacks"] + ex_f
     robot_fbs = [_gen_fb(rng, fbnames, 10 + j, uid) for j in range(2) if rng.random() < p_fb]
     r = rng.random()
     if r < 0.12:
@@ -166,6 +176,18 @@ def gen_case(rng, pid, uid):
         if pid == "C05":
             # iteration-body sites only: with the FMS attached every other callback of the iteration still runs, in order
             pool = [x for x in pool if owner_of_site(x) == "C05"]
+        if pid in ("C10", "C11") and rng.random() < 0.3:
+            # the field connects while the robot is already in some mode; the faults come later
+            # ... preferably so that the first fault still falls into the mode segment in which the field connected
+            starts, acc_it = [], 0
+            for (m_, dw_) in hist:
+                if dw_ >= 3:
+                    starts.append(acc_it)
+                acc_it += dw_
+            k_att = rng.choice(starts) if starts and rng.random() < 0.7 else rng.randrange(0, max(1, total // 3))
+            spec["fms"] = False
+            spec["fms_changes"] = {str(k_att): True}
+            spec["fault_from"] = k_att + 1
         if pid == "C07" and rng.random() < 0.35:
             # the field connects / disconnects while the robot is running (also while it stays in one mode)
             spec["fms_changes"] = {str(rng.randrange(0, max(1, total))): (not spec["fms"]) if j == 0 else rng.random() < 0.5
@@ -178,12 +200,15 @@ def gen_case(rng, pid, uid):
             s = rng.choice(pool)
             pat = rng.choice(["first", "kth", "kth", "every"])
             kind = rng.choices(["plain", "attr", "key", "base"], [70, 12, 8, 10])[0]
+            lo = spec.get("fault_from", 0)
+            if lo and site_kind(s) not in ("feedback", "robotPeriodic"):
+                continue            # only sites that run once per iteration in every mode have a known invocation index
             if pat == "first":
-                at(s, 0)["raise"] = kind
+                at(s, lo)["raise"] = kind
             elif pat == "kth":
-                at(s, rng.randrange(0, max(1, total // 2 + 1)))["raise"] = kind
+                at(s, lo + rng.randrange(0, max(1, total // 2 + 1)))["raise"] = kind
             else:
-                for i in range(total + 12):
+                for i in range(lo, total + 12):
                     at(s, i)["raise"] = kind
     return spec
 
@@ -515,9 +540,16 @@ def check_faults(spec, run, V, acc, fired, n_ok):
         acc.checks += 1
         if run.escaped is not None:
             V.add("C07", "escaped-with-fms", f"FMS attached, fault at {raises[-1][1]} (mode {mode_of(raises[-1])}): {run.escaped!r} left startCompetition()")
+            if site_kind(raises[-1][1]) == "feedback":
+                # C11's last clause: a raising getter (FMS attached) must not affect the other getters; here it ended them all
+                V.add("C11", "raising-getter-stopped-the-loop",
+                      f"FMS attached, feedback getter {raises[-1][1]} raised (mode {mode_of(raises[-1])}) and {run.escaped!r} left "
+                      f"startCompetition(): no other getter is published any more")
             return
     for i, site, _f in swallowed:
         r = log[i]
+        if any(e[0] == "fms" for e in log[:i]):
+            V.ev("fault-after-fms-attached-mid-run")
         k = site_kind(site)
         md = mode_of(r)
         if k == "periodic" and site == "R.teleopPeriodic" and md == "auto":
@@ -608,6 +640,8 @@ def check_resets(spec, run, V, acc):
                 V.ev("private-named-marker")
         if c.get("same_class_as"):
             V.ev("two-components-one-class")
+        if c.get("extra_resets"):
+            V.ev("component-class-derived-from-another-component-class")
         for s in c["sentinels"]:
             tracked.append((cn, s["attr"], False, s["value"]))
             if "shadowed_marker_default" in s:
